@@ -41,30 +41,49 @@ fn global_labels(plan: &Plan) -> ! {
     finish(&v, plan)
 }
 
-/// run_upkeep() on one thread and render() on another, serialised at the recorder's yield points (before a bucket is drained,
-/// before the distributions lock is taken) in the order of the plan: a render that starts after both samples were recorded
-/// must report both, whatever the other drainer is doing.
+/// run_upkeep() on one thread and render() on another. The solver's counterexample says that samples are outside both the
+/// bucket and the distribution while the write lock is not held; natively this shows as a render that starts after both
+/// samples were recorded and does not report them. Position search: the upkeep thread passes p of the recorder's yield
+/// points (before a bucket is drained, before the distributions lock is taken), then render() runs to completion, then
+/// upkeep finishes (where render() blocks on the lock held by upkeep, the wait runs out and upkeep goes on).
 fn lock_discipline(plan: &Plan) -> ! {
-    let rec = PrometheusBuilder::new().build_recorder();
-    let h = rec.handle();
-    metrics::with_local_recorder(&rec, || {
-        let hist = metrics::histogram!("c07_l");
-        hist.record(1.0);
-        hist.record(2.0);
-    });
-    install(plan.sched.clone());
-    let h1 = h.clone();
-    let t1 = std::thread::spawn(move || { set_thread(1); h1.run_upkeep(); thread_done(); });
-    let h2 = h.clone();
-    let t2 = std::thread::spawn(move || { set_thread(2); let t = h2.render(); thread_done(); t });
-    let _ = t1.join();
-    let text = t2.join().unwrap_or_default();
-    metrics::verif_sched::set_hook(None);
-    println!("{}", text);
     let mut v: Vec<&str> = vec![];
-    let count = check_exposition(&text).ok().and_then(|lines| sample(&lines, "c07_l_count"));
-    println!("render during upkeep reports _count = {:?} (2 samples were recorded before either call started)", count);
-    if !diverged() && count.as_deref() != Some("2") { v.push("samples_leave_the_bucket_and_enter_the_distribution_under_one_write_lock"); }
+    set_wait_secs(4);
+    for p in 0..6usize {
+        let rec = PrometheusBuilder::new().build_recorder();
+        let h = rec.handle();
+        metrics::with_local_recorder(&rec, || {
+            let hist = metrics::histogram!("c07_l");
+            hist.record(1.0);
+            hist.record(2.0);
+        });
+        let mut sched = vec![1usize; p];
+        sched.extend(std::iter::repeat(2usize).take(4000));
+        install_filtered(sched, &["clear_with", "distributions.write", "distributions.lock"]);
+        let h1 = h.clone();
+        let t1 = std::thread::spawn(move || { set_thread(1); h1.run_upkeep(); thread_done(); });
+        let h2 = h.clone();
+        let t2 = std::thread::spawn(move || { set_thread(2); let t = h2.render(); thread_done(); t });
+        let _ = t1.join();
+        let text = t2.join().unwrap_or_default();
+        let (pos, _) = consumed();
+        let div = diverged();
+        metrics::verif_sched::set_hook(None);
+        let count = check_exposition(&text).ok().and_then(|lines| sample(&lines, "c07_l_count"));
+        println!("render() after {} yield point(s) of run_upkeep(): _count = {:?} (2 samples were recorded before either call started){}", p, count,
+                 if div { " [the forced order ended early: render finished, or blocked on the lock until the wait ran out]" } else { "" });
+        // yields only delay threads: whatever order was actually taken is an order the real code allows, and a render that
+        // started after both samples were recorded must report them
+        if count.as_deref() != Some("2") {
+            println!("{}", text);
+            v.push("samples_leave_the_bucket_and_enter_the_distribution_under_one_write_lock");
+            break;
+        }
+        if pos < p { break; }
+    }
+    install(vec![]);
+    metrics::verif_sched::set_hook(None);
+    set_wait_secs(30);
     finish(&v, plan)
 }
 
